@@ -42,6 +42,7 @@ ProbeOrdinary(consts, p) ==
              <<"marshal_ok", ~p.merr>>,
              <<"round_trip", ~p.uerr /\ Eq(p.back, p.v)>>,
              <<"round_trip_into_a_used_variable", ~p.uerr2 /\ Eq(p.back2, p.v)>>,
+             <<"same_text_again_after_the_caller_overwrote_the_first", ~p.again_differs>>,
              <<"defined_value_renders_its_name", Defined(consts, p.v) => p.text \in NamesOfValue(consts, p.v)>>,
              <<"other_value_renders_decimal", (~Defined(consts, p.v) /\ Below2p63(p.v)) => p.text = ToDecimal(p.v)>>,
              <<"string_equals_text", p.str = p.text>> >>)
@@ -56,6 +57,7 @@ ProbeBitmask(consts, p) ==
                 <<"marshal_ok", ~p.merr>>,
                 <<"round_trip", ~p.uerr /\ Eq(p.back, p.v)>>,
                 <<"round_trip_into_a_used_variable", ~p.uerr2 /\ Eq(p.back2, p.v)>>,
+                <<"same_text_again_after_the_caller_overwrote_the_first", ~p.again_differs>>,
                 <<"renders_names_of_contained_flags",
                     (single /\ flags # {}) =>
                        /\ Len(parts) = Cardinality(vals)
